@@ -122,7 +122,7 @@ def run(ctx):
         tree_cplx = any(d in T.CPLX for d in O.leaf_dts(t))
         if "sliced_drops_imag" in present and O.has_kind(t, ("Sliced",)) and case["dx"] in T.CPLX and not tree_cplx:
             return False
-        if "kronsum_inplace_dtype" in present and O.has_kind(t, ("KronSum",)) and len(set(O.leaf_dts(t) + [case["dx"]])) > 1:
+        if "kronsum_inplace_dtype" in present and O.has_kind(t, ("KronSum",)) and tree_cplx and case["dx"] not in T.CPLX:
             return False
         if "sliced_index_array_cpu" in present:
             bad = []
@@ -157,6 +157,7 @@ def run(ctx):
                         ("permutation_passes_dtype" in present and O.has_kind(c["tree"], ("Perm",))) or
                         ("sum_dtype_first" in present and O.has_kind(c["tree"], ("Sum",)) and len(set(dts)) > 1) or
                         ("concat_dtype_first" in present and O.has_kind(c["tree"], ("Concat",)) and len(set(dts)) > 1) or
+                        ("kronsum_inplace_dtype" in present and O.has_kind(c["tree"], ("KronSum",)) and len(set(dts + [c["dx"]])) > 1) or
                         O.has_kind(c["tree"], ("Sliced", "Tridiag", "House", "Scal", "Sparse")) and len(set(dts + [c["dx"]])) > 1)
             if safe:
                 dt_checked += 1
